@@ -205,16 +205,95 @@ func strLen(s *Term) *Term {
 	return App("strlen", SInt, s)
 }
 
-// stringAxioms: lengths of interned literals (needed when a symbolic string is equated with a literal).
-func stringAxioms(used func(name string) bool) string {
-	if !used("strlen") {
-		return ""
+// stringAxioms: facts about interned literals needed when a symbolic string is equated with a
+// literal: lengths, and ground instances of substr / byte reads with constant positions that occur
+// in the VC (strings are uninterpreted codes; these instances are what connects s == "lit" to
+// s[:k] and s[i]).
+func stringAxioms(asserts []*Term) string {
+	_, ufs, order, _ := collect(asserts)
+	has := map[string]bool{}
+	for _, u := range ufs {
+		has[u] = true
 	}
 	var sb strings.Builder
-	for c := int64(0); c < int64(len(strByID)); c++ {
-		fmt.Fprintf(&sb, "(assert (= (strlen %d) %d))\n", c, len(strByID[c]))
+	n := int64(len(strByID))
+	if has["strlen"] {
+		for c := int64(0); c < n; c++ {
+			fmt.Fprintf(&sb, "(assert (= (strlen %d) %d))\n", c, len(strByID[c]))
+		}
+		sb.WriteString("(assert (forall ((s Int)) (! (and (>= (strlen s) 0) (<= (strlen s) 4611686018427387904)) :pattern ((strlen s)))))\n")
 	}
-	sb.WriteString("(assert (forall ((s Int)) (! (>= (strlen s) 0) :pattern ((strlen s)))))\n")
+	if has["runestr"] {
+		// the text of an ASCII rune is the one-byte literal
+		for c := 0; c < 128; c++ {
+			fmt.Fprintf(&sb, "(assert (= (runestr %d) %s))\n", c, internStr(string(rune(c))).String())
+		}
+	}
+	if has["substr"] && has["strlen"] {
+		sb.WriteString("(assert (forall ((s Int)) (! (= (substr s 0 (strlen s)) s) :pattern ((substr s 0 (strlen s))))))\n")
+	}
+	if !has["substr"] && !has["strbytes"] {
+		return sb.String()
+	}
+	if has["substr"] && !has["strbytes"] {
+		sb.WriteString("(declare-fun strbytes (Int) (Array Int Int))\n")
+	}
+	emitted := 0
+	for _, t := range order {
+		if emitted > 4000 {
+			break
+		}
+		if t.hasBV {
+			continue
+		}
+		if t.Op == "app" && t.Name == "substr" && len(t.Args) == 3 {
+			lo, ok1 := t.Args[1].ConstInt()
+			hi, ok2 := t.Args[2].ConstInt()
+			if !ok1 || !ok2 || lo < 0 || hi < lo || t.Args[0].IsConst() {
+				continue
+			}
+			for c := int64(0); c < n; c++ {
+				v := strByID[c]
+				if int64(len(v)) < hi || len(v) > 64 {
+					continue
+				}
+				fmt.Fprintf(&sb, "(assert (=> (= %s %d) (= %s %s)))\n", t.Args[0].String(), c, t.String(), internStr(v[lo:hi]).String())
+				emitted++
+			}
+			// a short slice that equals a literal fixes the bytes at those positions
+			if hi-lo >= 1 && hi-lo <= 4 {
+				for c := int64(0); c < n; c++ {
+					v := strByID[c]
+					if int64(len(v)) != hi-lo {
+						continue
+					}
+					var eqs []string
+					for k := int64(0); k < hi-lo; k++ {
+						eqs = append(eqs, fmt.Sprintf("(= (select (strbytes %s) %d) %d)", t.Args[0].String(), lo+k, v[k]))
+					}
+					fmt.Fprintf(&sb, "(assert (=> (= %s %d) (and %s true)))\n", t.String(), c, strings.Join(eqs, " "))
+					// and conversely: a slice inside the string whose bytes are those of the literal is the literal
+					fmt.Fprintf(&sb, "(assert (=> (and (>= (strlen %s) %d) %s) (= %s %d)))\n", t.Args[0].String(), hi, strings.Join(eqs, " "), t.String(), c)
+					emitted++
+				}
+			}
+		}
+		if t.Op == "select" && t.Args[0].Op == "app" && t.Args[0].Name == "strbytes" {
+			i, ok := t.Args[1].ConstInt()
+			s0 := t.Args[0].Args[0]
+			if !ok || i < 0 || s0.IsConst() {
+				continue
+			}
+			for c := int64(0); c < n; c++ {
+				v := strByID[c]
+				if int64(len(v)) <= i || len(v) > 64 {
+					continue
+				}
+				fmt.Fprintf(&sb, "(assert (=> (= %s %d) (= %s %d)))\n", s0.String(), c, t.String(), v[i])
+				emitted++
+			}
+		}
+	}
 	return sb.String()
 }
 
